@@ -1,2 +1,121 @@
-"""Runners for properties whose exploration is not a plain harness run (C18 CLI, C19 Python)."""
-RUNNERS = {}
+"""Runners for properties whose exploration is not a plain library call: C18 (the jsonlogic
+command, run as a process) and C19 (the Python extension module, run in CPython)."""
+import glob
+import json
+import os
+import shutil
+import sys
+
+import driver as D
+
+
+def build_repo(features, profile, what):
+    args, rustflags, sub = D.cargo_profile_args(profile)
+    target = os.path.join(D.BUILD, f"repo-{features}-{profile}")
+    with D.Lock(f"repo-{features}-{profile}"):
+        rc, out = D.sh(["cargo", "build", "--offline", "--features", features] + args, cwd=D.REPO,
+                       env={"CARGO_TARGET_DIR": target, "RUSTFLAGS": rustflags}, timeout=1500)
+    path = os.path.join(target, sub, what)
+    if rc != 0 or not os.path.exists(path):
+        errs = [l for l in out.splitlines() if l.startswith("error")]
+        return None, "\n".join(errs[:10]) or out[-1500:]
+    return path, ""
+
+
+def finish(prop, outdir, profile, res):
+    import checks
+    summary = json.load(open(os.path.join(outdir, f"summary_{prop}.json")))
+    recs = D.load_records(outdir, prop)
+    shard_results = D.eval_cases(outdir, prop)
+    res["profiles"].append(profile)
+    res["evaluations"] += summary["cases"]
+    res["distinct_nontrivial"] = max(res["distinct_nontrivial"], summary["distinct_nontrivial"])
+    res["dist"][profile] = {"by_generator": summary["by_generator"], "by_outcome": summary["by_outcome"]}
+    if not res["samples"]:
+        step = max(1, len(recs) // 4)
+        res["samples"] = [{"work": r.get("work"), "observed": r.get("obs"), "generator": r.get("tag")} for r in recs[::step][:4]]
+    for sr in shard_results:
+        res["shards"] += 1
+        if "error" in sr:
+            res["errors"].append(f"coqc failed on {os.path.basename(sr['path'])}: {sr['error']}")
+            continue
+        if not sr["corr"] and not sr["spec"] and not sr["illformed"]:
+            res["shards_ok"] += 1
+        for kind, key in (("corr", "corr_fail"), ("spec", "spec_fail"), ("illformed", "illformed")):
+            for i in sr[kind]:
+                rec = dict(recs[i]) if i < len(recs) else {"i": i}
+                rec["profile"] = profile
+                res[key].append(rec)
+
+
+def new_res():
+    return {"evaluations": 0, "distinct_nontrivial": 0, "shards": 0, "shards_ok": 0, "corr_fail": [], "spec_fail": [],
+            "illformed": [], "errors": [], "dist": {}, "samples": [], "profiles": []}
+
+
+def run_c18(prop, tier, seed, count, profiles):
+    res = new_res()
+    for profile in profiles:
+        exe, msg = D.step_harness_build(profile)
+        if not exe:
+            res["errors"].append(f"harness build failed ({profile}): {msg}")
+            continue
+        cli, msg = build_repo("cmdline", profile, "jsonlogic")
+        if not cli:
+            res["errors"].append(f"building the jsonlogic command failed ({profile}): {msg}")
+            continue
+        outdir = os.path.join(D.BUILD, "cases", f"{prop}-main-{profile}")
+        shutil.rmtree(outdir, ignore_errors=True)
+        os.makedirs(outdir)
+        rc, out = D.sh([exe, "gen", prop, "--seed", str(seed), "--count", str(count), "--tier", tier, "--out", outdir,
+                        "--profile", profile], env={"JLH_CLI": cli}, timeout=3000)
+        if rc != 0:
+            res["errors"].append(f"harness run failed ({profile}): {out[-1500:]}")
+            continue
+        finish(prop, outdir, profile, res)
+    return res
+
+
+PYTHON = os.environ.get("VERIF_PYTHON", sys.executable)
+
+
+def run_c19(prop, tier, seed, count, profiles):
+    res = new_res()
+    for profile in profiles:
+        exe, msg = D.step_harness_build(profile)
+        if not exe:
+            res["errors"].append(f"harness build failed ({profile}): {msg}")
+            continue
+        so, msg = build_repo("python", profile, "libjsonlogic_rs.so")
+        if not so:
+            res["errors"].append(f"building the Python extension failed ({profile}): {msg}")
+            continue
+        pkg_parent = os.path.join(D.BUILD, f"pypkg-{profile}")
+        pkg = os.path.join(pkg_parent, "jsonlogic_rs")
+        shutil.rmtree(pkg_parent, ignore_errors=True)
+        os.makedirs(pkg)
+        shutil.copy(os.path.join(D.REPO, "py", "jsonlogic_rs", "__init__.py"), pkg)
+        shutil.copy(so, os.path.join(pkg, "jsonlogic.so"))
+        outdir = os.path.join(D.BUILD, "cases", f"{prop}-main-{profile}")
+        shutil.rmtree(outdir, ignore_errors=True)
+        os.makedirs(outdir)
+        base = [exe, "gen", prop, "--seed", str(seed), "--count", str(count), "--tier", tier, "--out", outdir, "--profile", profile]
+        rc, out = D.sh(base + ["--stage", "cases"], timeout=600)
+        if rc != 0:
+            res["errors"].append(f"case generation failed: {out[-1000:]}")
+            continue
+        rc, out = D.sh([PYTHON, os.path.join(D.VERIF, "tools", "py_driver.py"), pkg_parent,
+                        os.path.join(outdir, "py_cases.jsonl"), os.path.join(outdir, "py_results.jsonl")], timeout=3000)
+        if rc != 0:
+            # the interpreter itself died or the module does not import: that is a C19 failure
+            res["errors"].append(f"the Python driver failed (rc={rc}): {out[-1500:]}")
+            continue
+        rc, out = D.sh(base + ["--stage", "emit"], timeout=600)
+        if rc != 0:
+            res["errors"].append(f"emission failed: {out[-1000:]}")
+            continue
+        finish(prop, outdir, profile, res)
+    return res
+
+
+RUNNERS = {"C18": run_c18, "C19": run_c19}
